@@ -52,32 +52,39 @@ def heapInit : Nat → List Nat → List HEnt
   | i, a :: b :: rest => ⟨a + b, i, i + 1⟩ :: heapInit (i + 1) (b :: rest)
   | _, _ => []
 
-def firstNonzero : List Nat → Option Nat
+def firstLive : List (Option Nat) → Option Nat
   | [] => none
-  | c :: cs => if c ≠ 0 then some 0 else (firstNonzero cs).map (· + 1)
+  | c :: cs => if c.isSome then some 0 else (firstLive cs).map (· + 1)
 
-/-- `while chunks[j] == 0: j += 1` (`none` = ran off the end: IndexError) -/
-def nextNonzero (chunks : List Nat) (j : Nat) : Option Nat :=
-  (firstNonzero (chunks.drop j)).map (· + j)
+/-- `while chunks[j] is None: j += 1` (`none` = ran off the end: IndexError) -/
+def nextLive (chunks : List (Option Nat)) (j : Nat) : Option Nat :=
+  (firstLive (chunks.drop j)).map (· + j)
 
-/-- one iteration of `while nmerges > 0`: `(merged?, heap, chunks)` -/
-def mergeStep (heap : List HEnt) (chunks : List Nat) : Option (Bool × List HEnt × List Nat) :=
+/-- one iteration of `while nmerges > 0`: `(merged?, heap, chunks)`; a chunk merged into its right neighbour is
+    `none` (Python `None`; a zero-length chunk is a chunk like any other - since `fix: merge_to_number … zero-length
+    chunks`, before it `0` was the deletion mark) -/
+def mergeStep (heap : List HEnt) (chunks : List (Option Nat)) : Option (Bool × List HEnt × List (Option Nat)) :=
   match popMin heap with
   | none => none
   | some (e, rest) =>
-    match chunks[e.i]?, chunks[e.j]? with
-    | some ci, some cj =>
-      if cj = 0 then
-        -- interval made invalid by another merge: look for the next live chunk, re-insert, retry
-        match nextNonzero chunks (e.j + 1) with
-        | none => none
-        | some j' => some (false, ⟨ci + chunks.getD j' 0, e.i, j'⟩ :: rest, chunks)
-      else if ci + cj ≠ e.w then some (false, ⟨ci + cj, e.i, e.j⟩ :: rest, chunks)
-      else if ci = 0 then none  -- `assert chunks[i] != 0`
-      else some (true, rest, (chunks.set e.i 0).set e.j e.w)
-    | _, _ => none
+    match chunks[e.j]? with
+    | none => none                                   -- IndexError
+    | some none =>
+      -- interval made invalid by another merge: look for the next live chunk, re-insert, retry
+      (match nextLive chunks (e.j + 1) with
+       | none => none
+       | some j' =>
+         match chunks[e.i]?, chunks[j']? with
+         | some (some ci), some (some cj') => some (false, ⟨ci + cj', e.i, j'⟩ :: rest, chunks)
+         | _, _ => none)
+    | some (some cj) =>
+      match chunks[e.i]? with
+      | some (some ci) =>
+        if ci + cj ≠ e.w then some (false, ⟨ci + cj, e.i, e.j⟩ :: rest, chunks)
+        else some (true, rest, (chunks.set e.i none).set e.j (some e.w))
+      | _ => none                                    -- `None + int`: TypeError (`assert chunks[i] is not None`)
 
-def mergeLoop : Nat → Nat → List HEnt → List Nat → Except PErr (List Nat)
+def mergeLoop : Nat → Nat → List HEnt → List (Option Nat) → Except PErr (List (Option Nat))
   | _, 0, _, chunks => .ok chunks
   | 0, _ + 1, _, _ => .error .nofuel
   | fuel + 1, nm + 1, heap, chunks =>
@@ -90,9 +97,9 @@ def mergeFuel (n : Nat) : Nat := (n + 2) * (n + 2)
 
 /-- the heap path of `merge_to_number` (more chunks than `max_number`, not all equal) -/
 def mergeHeap (cs : List Nat) (maxNumber : Nat) : Except PErr (List Nat) :=
-  match mergeLoop (mergeFuel cs.length) (cs.length - maxNumber) (heapInit 0 cs) cs with
+  match mergeLoop (mergeFuel cs.length) (cs.length - maxNumber) (heapInit 0 cs) (cs.map some) with
   | .error e => .error e
-  | .ok chunks => .ok (chunks.filter (· ≠ 0))
+  | .ok chunks => .ok (chunks.filterMap id)
 
 /-- `merge_to_number(desired_chunks, max_number)`, all three paths -/
 def mergeToNumberFull (cs : List Nat) (maxNumber : Nat) : Except PErr (List Nat) :=
@@ -100,7 +107,7 @@ def mergeToNumberFull (cs : List Nat) (maxNumber : Nat) : Except PErr (List Nat)
   else match cs with
     | [] => .ok []
     | w :: rest =>
-      if rest.all (· == w) then
+      if rest.all (· == w) && w != 0 then
         (match mergeHomogeneous w cs.length maxNumber with
          | some r => .ok r
          | none => .error .raised)
